@@ -6,8 +6,28 @@
 //! must be unchanged (C14 frame).
 use crate::common::*;
 use std::sync::atomic::{AtomicUsize, Ordering};
-use sux::bits::{AtomicBitVec, BitVec};
-use sux::traits::BitCount;
+use sux::bits::{AtomicBitVec, BitVec, OnesIterator, ZerosIterator};
+use sux::traits::{BitCount, BitLength, RankHinted, SelectHinted, SelectZeroHinted};
+
+/// the literal lists of the `bit_vec![x, y, ...]` form exercised by `macro_lit`
+const MACRO_LITS: &[&str] = &["1", "0", "0110100", "1111111111111111111111111111111111111111111111111111111111111111", "10000000000000000000000000000000000000000000000000000000000000001"];
+
+fn real_macro_lit(bits: &str) -> BitVec<Vec<usize>> {
+    match bits {
+        "1" => sux::bit_vec![1],
+        "0" => sux::bit_vec![0],
+        "0110100" => sux::bit_vec![0, 1, 1, 0, 1, 0, 0],
+        "1111111111111111111111111111111111111111111111111111111111111111" => sux::bit_vec![
+            1, 1, 1, 1, 1, 1, 1, 1, 1, 1, 1, 1, 1, 1, 1, 1, 1, 1, 1, 1, 1, 1, 1, 1, 1, 1, 1, 1, 1, 1, 1, 1, 1, 1, 1, 1, 1, 1,
+            1, 1, 1, 1, 1, 1, 1, 1, 1, 1, 1, 1, 1, 1, 1, 1, 1, 1, 1, 1, 1, 1, 1, 1, 1, 1
+        ],
+        "10000000000000000000000000000000000000000000000000000000000000001" => sux::bit_vec![
+            1, 0, 0, 0, 0, 0, 0, 0, 0, 0, 0, 0, 0, 0, 0, 0, 0, 0, 0, 0, 0, 0, 0, 0, 0, 0, 0, 0, 0, 0, 0, 0, 0, 0, 0, 0, 0, 0,
+            0, 0, 0, 0, 0, 0, 0, 0, 0, 0, 0, 0, 0, 0, 0, 0, 0, 0, 0, 0, 0, 0, 0, 0, 0, 0, 1,
+        ],
+        _ => panic!("macro_lit: not a literal list of the table"),
+    }
+}
 
 struct S {
     a: BitVec<Vec<usize>>,
@@ -317,6 +337,223 @@ fn exec(ctx: &mut Ctx, s: &mut S, op: &str) {
             }
             (r1, o)
         }
+
+        // ---- type-aware API coverage (API_COVERAGE_A.md) ----
+        "macro_lit" => {
+            // the list form of the real `bit_vec!`
+            grow = true;
+            let bs = bits_arg(1);
+            s.oa = bs.clone();
+            (catch(|| s.a = real_macro_lit(t[1])).map(|_| "ok".into()), "ok".into())
+        }
+        "macro_fill" => {
+            // the real `bit_vec![]`, `[false; n]`, `[0; n]`, `[true; n]`, `[1; n]`
+            grow = true;
+            let n = num(2);
+            let v = matches!(t[1], "true" | "1");
+            s.oa = vec![v; if t[1] == "empty" { 0 } else { n }];
+            let r = catch(|| {
+                s.a = match t[1] {
+                    "empty" => sux::bit_vec![],
+                    "false" => sux::bit_vec![false; n],
+                    "0" => sux::bit_vec![0; n],
+                    "true" => sux::bit_vec![true; n],
+                    "1" => sux::bit_vec![1; n],
+                    _ => panic!("unknown macro form"),
+                }
+            });
+            (r.map(|_| "ok".into()), "ok".into())
+        }
+        "anew" | "awith_value" => {
+            // the constructors of the atomic form, converted
+            grow = true;
+            let n = num(1);
+            let v = t[0] == "awith_value" && bit(2);
+            s.oa = vec![v; n];
+            let r = catch(|| {
+                let at: AtomicBitVec = if t[0] == "anew" { AtomicBitVec::new(n) } else { AtomicBitVec::with_value(n, v) };
+                s.a = at.into();
+            });
+            (r.map(|_| "ok".into()), "ok".into())
+        }
+        "capacity" => {
+            // `capacity()` is 64 times the capacity of the backend and covers the contents
+            let r = catch(|| {
+                let c = s.a.capacity();
+                let v = std::mem::replace(&mut s.a, BitVec::new(0));
+                let (b, l) = v.into_raw_parts();
+                let ok = c == b.capacity() * 64 && c >= l;
+                s.a = unsafe { BitVec::from_raw_parts(b, l) };
+                b01(ok)
+            });
+            (r.map(|x| format!("ok {}", x)), "ok 1".into())
+        }
+        "get_unchecked" | "set_unchecked" => {
+            let i = num(1);
+            if i < s.oa.len() {
+                if t[0] == "get_unchecked" {
+                    (
+                        catch(|| unsafe { s.a.get_unchecked(i) }).map(|x| format!("ok {}", b01(x))),
+                        format!("ok {}", b01(s.oa[i])),
+                    )
+                } else {
+                    let v = bit(2);
+                    s.oa[i] = v;
+                    (catch(|| unsafe { s.a.set_unchecked(i, v) }).map(|_| "ok".into()), "ok".into())
+                }
+            } else {
+                (Some("out-of-contract".into()), "out-of-contract".into())
+            }
+        }
+        "display" => (
+            catch(|| format!("{}", s.a)).map(|x| format!("ok {}", x)),
+            format!("ok [{}]", s.oa.iter().map(|&b| if b { '1' } else { '0' }).collect::<String>()),
+        ),
+        "into_iter" => (
+            catch(|| fmt_bools((&s.a).into_iter())).map(|x| format!("ok {}", x)),
+            format!("ok {}", fmt_bools(s.oa.iter().copied())),
+        ),
+        "len2" => {
+            // inherent `len` and `BitLength::len`, plain and atomic
+            let r = catch(|| {
+                let (a, b) = (BitVec::len(&s.a), BitLength::len(&s.a));
+                let (c, d) = with_atomic(&mut s.a, |at| (AtomicBitVec::len(at), BitLength::len(at)));
+                if a == b && b == c && c == d { format!("ok {}", a) } else { format!("ok {}/{}/{}/{}", a, b, c, d) }
+            });
+            (r, format!("ok {}", s.oa.len()))
+        }
+        "aindex" => {
+            let i = num(1);
+            let o = if i < s.oa.len() { format!("ok {}", b01(s.oa[i])) } else { "panic".into() };
+            (catch(|| with_atomic(&mut s.a, |at| at[i])).map(|x| format!("ok {}", b01(x))), o)
+        }
+        "apar_fill" => {
+            let v = bit(1);
+            s.oa.iter_mut().for_each(|x| *x = v);
+            (catch(|| with_atomic(&mut s.a, |at| at.par_fill(v, Ordering::Relaxed))).map(|_| "ok".into()), "ok".into())
+        }
+        "apar_flip" => {
+            s.oa.iter_mut().for_each(|x| *x = !*x);
+            (catch(|| with_atomic(&mut s.a, |at| at.par_flip(Ordering::Relaxed))).map(|_| "ok".into()), "ok".into())
+        }
+        "apar_reset" => {
+            s.oa.iter_mut().for_each(|x| *x = false);
+            (catch(|| with_atomic(&mut s.a, |at| at.par_reset(Ordering::Relaxed))).map(|_| "ok".into()), "ok".into())
+        }
+        "apar_count" => (
+            catch(|| with_atomic(&mut s.a, |at| at.par_count_ones())).map(|x| format!("ok {}", x)),
+            format!("ok {}", s.oa.iter().filter(|x| **x).count()),
+        ),
+        "ones_new" | "zeros_new" => {
+            // the public constructors of the position iterators accept any length: positions are
+            // bounded by the length AND by the backend
+            let l = num(1);
+            let ws = words_of(&s.a);
+            let want = t[0] == "ones_new";
+            let o: Vec<usize> = (0..l.min(ws.len() * 64)).filter(|&k| raw_bit(&ws, k) == want).collect();
+            let r = catch(|| {
+                if want { fmt_list(OnesIterator::new(&ws, l)) } else { fmt_list(ZerosIterator::new(&ws, l)) }
+            });
+            (r.map(|x| format!("ok {}", x)), format!("ok {}", fmt_list(o)))
+        }
+        "sv_atomic" => {
+            // `BitVec<&[usize]>` -> `AtomicBitVec<&[AtomicUsize]>` -> back (the `From` glue of borrowed views)
+            let ws = words_of(&s.a);
+            let len = s.a.len();
+            let bits = fmt_bools(s.oa.iter().copied());
+            let o = format!("ok {} {} {} {} {}", len, bits, s.oa.iter().filter(|x| **x).count(), len, bits);
+            let r = catch(|| {
+                let view: BitVec<&[usize]> = unsafe { BitVec::from_raw_parts(&ws[..], len) };
+                let av: AtomicBitVec<&[AtomicUsize]> = view.into();
+                let n = av.len();
+                let got = fmt_bools((0..n).map(|i| av.get(i, Ordering::Relaxed)));
+                let c = av.count_ones();
+                let back: BitVec<&[usize]> = av.into();
+                format!("ok {} {} {} {} {}", n, got, c, back.len(), fmt_bools(back.iter()))
+            });
+            (r, o)
+        }
+        "svm_set" | "svm_aset" | "svm_fill" | "svm_flip" => {
+            // the mutators over caller-supplied storage `&mut [usize]` between two guard words, plain
+            // and through the `From` glue to `AtomicBitVec<&mut [AtomicUsize]>` and back
+            let ws = words_of(&s.a);
+            let len = s.a.len();
+            let n = ws.len();
+            let mut buf: Vec<usize> = vec![0x3333_3333_3333_3333];
+            buf.extend_from_slice(&ws);
+            buf.push(0x5555_5555_5555_5555);
+            let o = match t[0] {
+                "svm_set" | "svm_aset" => {
+                    let (i, v) = (num(1), bit(2));
+                    if i < s.oa.len() {
+                        s.oa[i] = v;
+                        "ok"
+                    } else {
+                        "panic"
+                    }
+                }
+                "svm_fill" => {
+                    let v = bit(1);
+                    s.oa.iter_mut().for_each(|x| *x = v);
+                    "ok"
+                }
+                _ => {
+                    s.oa.iter_mut().for_each(|x| *x = !*x);
+                    "ok"
+                }
+            };
+            let r = catch(|| {
+                let mut view: BitVec<&mut [usize]> = unsafe { BitVec::from_raw_parts(&mut buf[1..1 + n], len) };
+                match t[0] {
+                    "svm_set" => view.set(num(1), bit(2)),
+                    "svm_fill" => view.fill(bit(1)),
+                    "svm_flip" => view.flip(),
+                    _ => {
+                        let av: AtomicBitVec<&mut [AtomicUsize]> = view.into();
+                        av.set(num(1), bit(2), Ordering::Relaxed);
+                        let back: BitVec<&mut [usize]> = av.into();
+                        assert!(back.len() == len);
+                    }
+                }
+            });
+            if buf[0] != 0x3333_3333_3333_3333 || buf[n + 1] != 0x5555_5555_5555_5555 {
+                ctx.check_oracle("guard words untouched", &format!("guard word changed by {}", t[0]));
+            }
+            s.a = unsafe { BitVec::from_raw_parts(buf[1..1 + n].to_vec(), len) };
+            (r.map(|_| "ok".into()), o.into())
+        }
+        "rank_hinted" | "select_hinted" | "select_zero_hinted" => {
+            // the hinted primitives of `BitVec` (unsafe trait methods), under their contracts:
+            // rank_hinted(pos, hint word, ones before that word) with hint word <= pos / 64, pos < len;
+            // select[_zero]_hinted(rank, hint bit position, rank of the hint) with the hint at or
+            // before the answer and rank below the number of ones [zeros] of the vector
+            let (x, hp, hr) = (num(1), num(2), num(3));
+            let ws = words_of(&s.a);
+            let zero = t[0] == "select_zero_hinted";
+            let cnt_before = |p: usize, want: bool| (0..p).filter(|&k| raw_bit(&ws, k) == want).count();
+            if t[0] == "rank_hinted" {
+                if x < s.oa.len() && hp <= x / 64 && hr == cnt_before(hp * 64, true) {
+                    (
+                        catch(|| unsafe { s.a.rank_hinted(x, hp, hr) }).map(|r| format!("ok {}", r)),
+                        format!("ok {}", cnt_before(x, true)),
+                    )
+                } else {
+                    (Some("out-of-contract".into()), "out-of-contract".into())
+                }
+            } else {
+                let pos: Vec<usize> = (0..s.oa.len()).filter(|&k| s.oa[k] != zero).collect();
+                if x < pos.len() && hp <= pos[x] && hr == cnt_before(hp, !zero) {
+                    let r = if zero {
+                        catch(|| unsafe { s.a.select_zero_hinted(x, hp, hr) })
+                    } else {
+                        catch(|| unsafe { s.a.select_hinted(x, hp, hr) })
+                    };
+                    (r.map(|r| format!("ok {}", r)), format!("ok {}", pos[x]))
+                } else {
+                    (Some("out-of-contract".into()), "out-of-contract".into())
+                }
+            }
+        }
         "eq" => (
             catch(|| s.a == s.b).map(|x| format!("ok {}", b01(x))),
             format!("ok {}", b01(s.oa == s.ob)),
@@ -342,6 +579,30 @@ fn exec(ctx: &mut Ctx, s: &mut S, op: &str) {
                     "atomic" => {
                         let at: AtomicBitVec<Vec<AtomicUsize>> = v.into();
                         at.into()
+                    }
+                    "rawparts" => {
+                        let (b, l) = v.into_raw_parts();
+                        unsafe { BitVec::from_raw_parts(b, l) }
+                    }
+                    "map" => {
+                        // `map` onto another backend type (same contents)
+                        let b: BitVec<Box<[usize]>> = unsafe { v.map(|x| x.into_boxed_slice()) };
+                        b.into()
+                    }
+                    "arawparts" => {
+                        let at: AtomicBitVec<Vec<AtomicUsize>> = v.into();
+                        let (b, l) = at.into_raw_parts();
+                        let at: AtomicBitVec<Vec<AtomicUsize>> = unsafe { AtomicBitVec::from_raw_parts(b, l) };
+                        at.into()
+                    }
+                    "asmut" => {
+                        // `AsMut<[usize]>`: rewrite every word with itself
+                        let mut v = v;
+                        let w: &mut [usize] = v.as_mut();
+                        for x in w.iter_mut() {
+                            *x = std::hint::black_box(*x);
+                        }
+                        v
                     }
                     _ => {
                         let b: BitVec<Box<[usize]>> = v.into();
@@ -470,12 +731,30 @@ fn gen_ctor(ctx: &mut Ctx) -> String {
             format!("raw {} {}", fmt_list(ws), len)
         }
         8 => {
-            let n = gen_len(ctx).min(200);
-            format!("collect {}", gen_bits(ctx, n))
+            if ctx.rng.bool() {
+                let n = gen_len(ctx).min(200);
+                format!("collect {}", gen_bits(ctx, n))
+            } else {
+                match ctx.rng.below(3) {
+                    0 => format!("anew {}", gen_len(ctx)),
+                    1 => {
+                        let n = gen_len(ctx);
+                        format!("awith_value {} {}", n, b01(ctx.rng.bool()))
+                    }
+                    _ => {
+                        let n = gen_len(ctx);
+                        format!("macro_fill {} {}", ctx.rng.pick(&["empty", "false", "0", "true", "1"]), n)
+                    }
+                }
+            }
         }
         _ => {
-            let n = gen_len(ctx).min(200);
-            format!("macro {}", gen_bits(ctx, n))
+            if ctx.rng.bool() {
+                let n = gen_len(ctx).min(200);
+                format!("macro {}", gen_bits(ctx, n))
+            } else {
+                format!("macro_lit {}", ctx.rng.pick(MACRO_LITS))
+            }
         }
     }
 }
@@ -528,6 +807,63 @@ fn gen_op(ctx: &mut Ctx, len: usize) -> String {
     }
 }
 
+/// ops of the type-aware API audit (API_COVERAGE_A.md); unsafe methods only under their contracts
+fn gen_api_op(ctx: &mut Ctx, s: &S) -> String {
+    let len = s.oa.len();
+    match ctx.rng.below(24) {
+        0 => format!("conv {}", ctx.rng.pick(&["rawparts", "map", "arawparts", "asmut"])),
+        1 => "capacity".into(),
+        2 if len > 0 => format!("get_unchecked {}", *ctx.rng.pick(&[0, len - 1, len / 2, (len / 64 * 64).min(len - 1)])),
+        3 if len > 0 => {
+            let i = *ctx.rng.pick(&[0, len - 1, len / 2, (len / 64 * 64).min(len - 1)]);
+            format!("set_unchecked {} {}", i, b01(ctx.rng.bool()))
+        }
+        4 => "display".into(),
+        5 => "into_iter".into(),
+        6 => "len2".into(),
+        7 => format!("aindex {}", gen_index(ctx, len)),
+        8 => format!("apar_fill {}", b01(ctx.rng.bool())),
+        9 => ctx.rng.pick(&["apar_flip", "apar_reset", "apar_count"]).to_string(),
+        10 | 11 => {
+            // any length: shorter, equal, up to the backend, beyond the backend
+            let nb = 64 * words_of(&s.a).len();
+            let x = ctx.rng.usize_below(200);
+            let l = *ctx.rng.pick(&[0, len / 2, len, nb, nb + 1, nb + 64 + x, usize::MAX]);
+            format!("{} {}", ctx.rng.pick(&["ones_new", "zeros_new"]), l)
+        }
+        12 => "sv_atomic".into(),
+        13 => format!("svm_set {} {}", gen_index(ctx, len), b01(ctx.rng.bool())),
+        14 => format!("svm_aset {} {}", gen_index(ctx, len), b01(ctx.rng.bool())),
+        15 => format!("svm_fill {}", b01(ctx.rng.bool())),
+        16 => "svm_flip".into(),
+        17 | 18 if len > 0 => {
+            // rank_hinted under its contract
+            let x = ctx.rng.usize_below(len);
+            let pos = *ctx.rng.pick(&[0, len - 1, len / 2, (len / 64 * 64).min(len - 1), x]);
+            let x = ctx.rng.usize_below(pos / 64 + 1);
+            let hp = *ctx.rng.pick(&[0, pos / 64, (pos / 64).saturating_sub(1), x]);
+            let hr = s.oa[..hp * 64].iter().filter(|x| **x).count();
+            format!("rank_hinted {} {} {}", pos, hp, hr)
+        }
+        19..=22 => {
+            // select_hinted / select_zero_hinted under their contracts
+            let zero = ctx.rng.bool();
+            let pos: Vec<usize> = (0..len).filter(|&k| s.oa[k] != zero).collect();
+            if pos.is_empty() {
+                return "len2".into();
+            }
+            let x = ctx.rng.usize_below(pos.len());
+            let r = *ctx.rng.pick(&[0, pos.len() - 1, x]);
+            let p = pos[r];
+            let x = ctx.rng.usize_below(p + 1);
+            let hp = *ctx.rng.pick(&[0, p, p / 64 * 64, p.saturating_sub(1), x]);
+            let hr = s.oa[..hp].iter().filter(|x| **x != zero).count();
+            format!("{} {} {} {}", if zero { "select_zero_hinted" } else { "select_hinted" }, r, hp, hr)
+        }
+        _ => "len2".into(),
+    }
+}
+
 fn fresh() -> S {
     S {
         a: BitVec::new(0),
@@ -558,6 +894,16 @@ fn directed(ctx: &mut Ctx) {
         "collect 0110100".into(),
         "macro 1".into(),
         "collect -".into(),
+        "macro_fill empty 0".into(),
+        "macro_fill true 65".into(),
+        "macro_fill 1 64".into(),
+        "macro_fill false 70".into(),
+        "macro_fill 0 1".into(),
+        "macro_lit 0110100".into(),
+        "macro_lit 10000000000000000000000000000000000000000000000000000000000000001".into(),
+        "anew 65".into(),
+        "awith_value 70 1".into(),
+        "awith_value 0 1".into(),
     ];
     let obs = [
         "iter", "ones", "zeros", "count_ones", "count_zeros", "par_count_ones", "acount", "aiter",
@@ -565,14 +911,29 @@ fn directed(ctx: &mut Ctx) {
         "sv_ones", "sv_zeros", "sv_iter", "sv_eq", "sv_get 0", "sv_get 64", "sv_get 1000", "pop",
         "ones", "zeros",
     ];
-    for c in &ctors {
+    // type-aware API coverage: observed after the core modifiers only (run-time budget)
+    let obs_api = [
+        "display", "into_iter", "len2", "capacity", "sv_atomic", "aindex 0", "aindex 64", "aindex 1000",
+        "apar_count", "ones_new 0", "ones_new 64", "ones_new 1000", "ones_new 18446744073709551615",
+        "zeros_new 1", "zeros_new 65", "zeros_new 1000", "zeros_new 18446744073709551615",
+        "get_unchecked 0", "set_unchecked 0 1", "conv rawparts", "conv map",
+        "conv arawparts", "conv asmut",
+    ];
+    let core_mods = ["", "push 1", "pop", "resize 3 1", "flip", "fill 1"];
+    for (ci, c) in ctors.iter().enumerate() {
         for m in [
             "", "fill 1", "fill 0", "flip", "reset", "afill 1", "aflip", "areset", "par_fill 1",
             "par_flip", "par_reset", "push 1", "push 0", "pop", "resize 3 1", "resize 64 1",
             "resize 130 1", "resize 131 0", "set 0 1", "set 63 0", "aset 64 1", "aswap 0 1",
             "aswap 1 0", "extend 1111111111111111111111111111111111111111111111111111111111111111111",
-            "conv box", "conv atomic", "conv boxatomic",
+            "conv box", "conv atomic", "conv boxatomic", "apar_fill 1", "apar_fill 0", "apar_flip", "apar_reset",
+            "svm_set 0 1", "svm_set 64 0", "svm_aset 0 0", "svm_aset 63 1", "svm_fill 1", "svm_fill 0", "svm_flip",
+            "set_unchecked 0 1",
         ] {
+            let core = core_mods.contains(&m);
+            if ci >= 18 && !core {
+                continue; // the constructors added by the API audit: core modifiers only
+            }
             ctx.case();
             let mut s = fresh();
             exec(ctx, &mut s, c);
@@ -583,6 +944,11 @@ fn directed(ctx: &mut Ctx) {
             exec(ctx, &mut s, "eq");
             for o in obs {
                 exec(ctx, &mut s, o);
+            }
+            if core {
+                for o in obs_api {
+                    exec(ctx, &mut s, o);
+                }
             }
             ctx.shape(format!("directed:{}:{}", c.split(' ').next().unwrap(), m));
         }
@@ -603,6 +969,40 @@ fn directed(ctx: &mut Ctx) {
     exec(ctx, &mut s, "resize 0 0");
     exec(ctx, &mut s, "ones");
     exec(ctx, &mut s, "zeros");
+    // the hinted primitives under their contracts, exhaustively on small dirty vectors: every
+    // position / rank with the hints "start", "same word", "exact"
+    for c in [
+        format!("raw [{},{},{}] 130", 0xF0F0_0000_FFFF_0001u64, u64::MAX, 12345u64),
+        format!("raw [{},{},{},{}] 129", 0u64, 1u64 << 63, u64::MAX, u64::MAX),
+        format!("raw [{}] 64", u64::MAX),
+        "with_value 200 1".to_string(),
+        "new 70".to_string(),
+    ] {
+        ctx.case();
+        let mut s = fresh();
+        exec(ctx, &mut s, &c);
+        let len = s.oa.len();
+        for pos in (0..len).step_by(7).chain([len - 1, 63.min(len - 1), 64.min(len - 1)]) {
+            for hp in [0, pos / 64] {
+                let hr = s.oa[..hp * 64].iter().filter(|x| **x).count();
+                exec(ctx, &mut s, &format!("rank_hinted {} {} {}", pos, hp, hr));
+            }
+        }
+        for zero in [false, true] {
+            let pos: Vec<usize> = (0..len).filter(|&k| s.oa[k] != zero).collect();
+            for (r, &p) in pos.iter().enumerate() {
+                if r % 5 != 0 && r + 1 != pos.len() {
+                    continue;
+                }
+                for hp in [0, p / 64 * 64, p] {
+                    let hr = s.oa[..hp].iter().filter(|x| **x != zero).count();
+                    let name = if zero { "select_zero_hinted" } else { "select_hinted" };
+                    exec(ctx, &mut s, &format!("{} {} {} {}", name, r, hp, hr));
+                }
+            }
+        }
+        ctx.shape(format!("directed-hinted:{}", c.split(' ').next().unwrap()));
+    }
 }
 
 fn random_case(ctx: &mut Ctx) {
@@ -614,7 +1014,7 @@ fn random_case(ctx: &mut Ctx) {
     let mut kinds = std::collections::BTreeSet::new();
     for _ in 0..nops {
         let len = s.a.len();
-        let op = gen_op(ctx, len);
+        let op = if ctx.rng.chance(1, 5) { gen_api_op(ctx, &s) } else { gen_op(ctx, len) };
         kinds.insert(op.split(' ').next().unwrap().to_string());
         exec(ctx, &mut s, &op);
     }
